@@ -357,6 +357,10 @@ class Check:
         self.wd = os.path.join(WORK, pid)
         os.makedirs(self.wd, exist_ok=True)
         os.makedirs(os.path.join(ROOT, "replays"), exist_ok=True)
+        # replays of an earlier run of this check and tier would be mistaken for this run's
+        import glob
+        for old in glob.glob(os.path.join(ROOT, "replays", f"{pid}-{tier}-*.txt")):
+            os.remove(old)
 
     def phase(self, name, **kv):
         d = {"phase": name}
